@@ -2,7 +2,7 @@
 every literal is rendered to its spelling, evaluated alone on the real interpreter and compared:
 integers / based / suffixed exactly, rationals as reduced fractions, floats exactly when the denotation is
 representable and otherwise as the nearest float of the kind (decided here with exact Fractions)."""
-import collections, math, struct
+import collections, math, struct, json
 from fractions import Fraction
 import tlc, execpool, absval
 from core import log
@@ -183,8 +183,49 @@ def long_float_family(rep, tier, seed):
     rep.cov.update({"long_float_literals": len(cases), "long_float_literals_nearest": ok_n})
     return len(cases)
 
+# ------------------------------------------------------------------ scientific literals with a half-integer exponent (MC_C13h)
+def half_exponent_family(rep, tier, seed):
+    """`m e [+|-|+-] k.5`: the value is irrational; MechLiteral.HalfExpSquare states the rational its SQUARE equals.  The observed
+    f64 is judged with exact fractions: |v^2 - sq| / sq below 2^-44 (two roundings of a correctly scaled value stay far below that;
+    a wrong sign, a wrong exponent part or a dropped mantissa is off by a factor)."""
+    t = tlc.run("MC_C13h", "MC_C13h.cfg", workers=4, timeout=600)
+    if t.violations or not t.ok:
+        rep.fail("C13/model", "TLC reported a violation of the half-exponent laws: " + "; ".join(t.errors[:3]), {"log": t.log})
+    cases = sorted(t.cases, key=lambda c: json.dumps(c, sort_keys=True))
+    def text(c, variant):
+        w = "".join(str(d) for d in _seq(c["w"])); f = "".join(str(d) for d in _seq(c["f"]))
+        body = w + "." + f + ("E" if c["cap"] else "e") + {0: "", 1: "+", 2: "-", 3: "+-"}[c["es"]] + str(c["k"]) + ".5"
+        return {"plain": body, "neg": "-" + body, "ann": body + "<f64>", "mat": "[" + body + " 1.0]", "expr": "1.0 * " + body, "def": "zz := " + body}[variant]
+    items = [(c, v) for c in cases for v in ("plain", "neg", "ann", "mat", "expr", "def")]
+    reqs = [{"id": i, "mode": "session", "stmts": [text(c, v)], "opts": {}} for i, (c, v) in enumerate(items)]
+    outs = execpool.run_requests(reqs, nworkers=16, timeout=120)
+    ok_n = 0
+    for (c, v), req, (resp, oc) in zip(items, reqs, outs):
+        tx = req["stmts"][0]
+        sq = Fraction(c["sq"]["n"], c["sq"]["d"])
+        sig = f"C13/sci/half-exponent/{ {0: 'plain', 1: 'plus', 2: 'minus', 3: 'plusminus'}[c['es']] }"
+        replay = {"stmts": [tx], "square_denotes": str(sq)}
+        if oc != "ok" or "steps" not in (resp or {}):
+            rep.fail(sig + "/host-" + oc, f"`{tx}` -> interpreter process {oc}", replay); continue
+        ev = resp["steps"][0]
+        if not (ev.get("p") == "ok" and ev.get("shape") and ev["shape"][0].startswith("MechCode")) or ev.get("r") != "ok":
+            # whether the grammar's fractional exponents are accepted in every context is not what C13 states ("accepted by the grammar")
+            continue
+        got = absval.absval(ev["v"])
+        if got[0] == 'mat': got = got[4][0]
+        if got[0] != 'num':
+            rep.fail(sig + "/wrong-value", f"`{tx}` = {absval.short(got)}", replay); continue
+        val = got[2]
+        if (v == "neg") != (val < 0) or abs(val * val - sq) / sq >= Fraction(1, 2 ** 44):
+            rep.fail(sig + "/wrong-value", f"`{tx}` = {float(val)!r}: its square {float(val * val)!r} is not {float(sq)!r} (= ({'.'.join([''.join(map(str, _seq(c['w']))), ''.join(map(str, _seq(c['f'])))])})^2 * 10^{'-' if c['es'] in (2, 3) else ''}{2 * c['k'] + 1})", replay)
+        else: ok_n += 1
+    log(f"[C13] half-integer exponents: {ok_n}/{len(items)} spellings have the square MechLiteral.HalfExpSquare states")
+    rep.cov.update({"half_exponent_literals": len(items), "half_exponent_literals_ok": ok_n})
+    return len(items)
+
 def run(rep, tier, seed):
     nlong = long_float_family(rep, tier, seed)
+    nlong += half_exponent_family(rep, tier, seed)
     cfg = "MC_C13_quick.cfg" if tier == "quick" else "MC_C13_thorough.cfg"
     t = tlc.run("MC_C13", cfg, workers=16, timeout=3000, xss="64m")
     if t.violations or not t.ok:
